@@ -595,15 +595,25 @@ class HintTreeCode(HintTreeABC):
             # Metadata encapsulating the previously enqueued root hint.
             root_hint_meta = self._hint_queue[0]
 
-            # This root hint.
-            root_hint = root_hint_meta.hint_sane.hint
+            # Sanified metadata of this root hint if this metadata has yet to be
+            # deinitialized *OR* a sentinel otherwise. Metadata is deinitialized
+            # when dequeued. Ergo, this metadata is still intact only if this
+            # queue overflows while visiting this root hint itself.
+            root_hint_sane = root_hint_meta.hint_sane
+
+            # Human-readable substring describing this root hint.
+            root_hint_label = (
+                f'root type hint {repr(root_hint_sane.hint)}'
+                if isinstance(root_hint_sane, HintSane) else
+                'the root type hint'
+            )
 
             # Raise an exception embedding this root hint.
             raise BeartypeDecorHintRecursionException(
                 f'{self.exception_prefix}child type hint {repr(hint_child)} '
                 f'non-type-checkable. '
                 f'Recursion detected when generating code type-checking from '
-                f'root type hint {repr(root_hint)} to this child type hint. '
+                f'{root_hint_label} to this child type hint. '
                 f'Please submit this exception traceback as a new issue '
                 f'to our friendly issue tracker:\n'
                 f'\t{URL_ISSUES}\n'
